@@ -146,7 +146,7 @@ impl<W, R, T> Runtime<W, R, T> {
                 crate::verif::observe(crate::verif::Event::Preflight {
                     request: Some(size),
                     total: usize::from(stat.size),
-                    ok: usize::from(stat.size) + size <= size_limit,
+                    ok: usize::from(stat.size).saturating_add(size) <= size_limit,
                     site: std::panic::Location::caller(),
                 });
                 if usize::from(stat.size) + size > size_limit {
